@@ -387,6 +387,28 @@ def check_c07(chk, args):
                     desc['eval_error'] = repr(ex)[:200]
                 if not ok:
                     chk.violation('C07.faithful', 'the printed %s does not reconstruct an equal object: %r' % (kind, desc), desc)
+        # the settings that are not about the page: none of them may make a bundled printer fail or change what the text denotes
+        # (limits far above every size; an explicit 'no limit')
+        for cname in ('top', 'list-element') if q else tuple(ctxs)[:4]:
+            if cname not in ctxs:
+                continue
+            for extra in ({'max_seq_len': None}, {'max_seq_len': 10 ** 6, 'depth': 50}, {'depth': None, 'indent': 2},
+                          {'max_seq_len': None, 'depth': None, 'width': 30}):
+                v = ctxs[cname](obj)
+                desc = {'type': kind, 'object': repr(obj)[:200], 'context': cname, 'settings': extra}
+                out = print_total(chk, v, desc, **extra)
+                if out is None:
+                    continue
+                n += 1
+                desc['output'] = out
+                try:
+                    back = eval('(' + out + '\n)', dict(e))
+                    ok = equal(unwrap(cname, back), obj) and type(back) is type(v)
+                except Exception as ex:  # noqa
+                    ok = False
+                    desc['eval_error'] = repr(ex)[:200]
+                if not ok:
+                    chk.violation('C07.faithful', 'the printed %s does not reconstruct an equal object: %r' % (kind, desc), desc)
     builtin_totality(chk)
     # spec -> code: Printers!PStd (the container printers of pretty_stdlib.py) predicts the exact text (DRIFT only)
     from checks import values_checks as VC
